@@ -167,6 +167,19 @@ func (w *World) monRedirect(rec *CheckRec) {
 			w.violate("C05", "session-id-equals-presented", fmt.Sprintf("check #%d: issued an id some client presented earlier", rec.N))
 		}
 	}
+	// which class of id did this redirect answer? (reach probes for C05)
+	switch {
+	case rec.SID == "":
+		w.probe("redirect-presented:none")
+	case rec.Before != nil && rec.Before.Tokens != nil:
+		w.probe("redirect-presented:authenticated")
+	case rec.Before != nil && rec.Before.State != nil:
+		w.probe("redirect-presented:pending")
+	case w.sess(rec.SID) != nil:
+		w.probe("redirect-presented:stale")
+	default:
+		w.probe("redirect-presented:attacker-chosen")
+	}
 	// -- the presented session is destroyed (sequential contexts only; no fault in this check)
 	if rec.SID != "" && !rec.Overlapped && len(rec.Faults) == 0 && rec.After != nil && rec.After.Found {
 		w.violate("C05", "presented-session-survives-redirect", fmt.Sprintf("check #%d: store still holds the presented session after the login redirect", rec.N))
@@ -226,6 +239,13 @@ func problemKinds(ps []string) string {
 
 func (w *World) monTokenReqs(rec *CheckRec) {
 	for _, tr := range rec.TokenReqs {
+		if tr.Chain >= 0 && tr.Status == 200 && (tr.Fault == "reset-after" || tr.Fault == "truncated" || tr.Fault == "garbage") {
+			// the provider processed the grant (and possibly rotated the refresh token) but its answer was
+			// lost: the service legitimately still holds the predecessor
+			w.lostReply[tr.Chain] = true
+		}
+	}
+	for _, tr := range rec.TokenReqs {
 		if rec.Filter < 0 {
 			w.violate("C04", "token-request-from-unsubjected-check", fmt.Sprintf("check #%d", rec.N))
 			continue
@@ -284,9 +304,8 @@ func (w *World) monTokenReqs(rec *CheckRec) {
 		if !containsVal(vals["code"], tr.Code) {
 			w.violate("C04", "exchange-with-other-code", fmt.Sprintf("check #%d sent code %q, callback had %v", rec.N, tr.Code, vals["code"]))
 		}
-		if c := w.codeDone[tr.Code]; c != nil && rec.Seq0 > c.Seq1 {
-			w.violate("C04", "code-resent-after-successful-exchange", fmt.Sprintf("check #%d re-sent a code whose exchange had completed in check #%d", rec.N, c.N))
-		}
+		// NOTE: a consumed code re-sent under *another* session's valid state is not the service's fault (it
+		// cannot know codes); the provider rejects it. Only the session-side clauses are judged here.
 		if tr.Status == 200 && tr.Done && tr.Fault == "" && sm != nil {
 			w.pendingDone = append(w.pendingDone, doneMark{sm, rec, tr})
 		}
@@ -769,15 +788,34 @@ func (w *World) monRefresh(rec *CheckRec) {
 		}
 	}
 	success := last.Status == 200 && last.Done && last.Fault == ""
-	if success && w.byzActive(f, false) {
+	either := false
+	if success && last.Forged != "" {
 		// a forged refresh answer must be treated as a validation failure
 		success = false
 	}
-	if success && w.keysUnavailable(f, last) {
-		success = false
+	if success {
+		// the ID token of the merged result: the answer's, or the kept one when the provider omitted it
+		signer := last.SignedBy
+		if id, _ := last.Answer["id_token"].(string); id == "" {
+			if it := f.IdP.Issued(prev.IDToken); it != nil {
+				signer = it.Key
+			}
+		}
+		switch w.keyKnowledge(f, signer) {
+		case "unknown-key":
+			success = false
+		case "maybe":
+			either = true // published but possibly not fetched yet: both outcomes are legitimate
+		}
 	}
 	if storeFault {
 		return // C01 judges verdicts under store/key faults; the merge model applies to clean exchanges
+	}
+	if either {
+		w.probe("refresh-under-key-rollover")
+		if rec.Class != "ok" {
+			return
+		}
 	}
 	if success {
 		ans := last.Answer
@@ -845,25 +883,32 @@ func mergeField(hdr string, f *FilterRT) string {
 	return "access_token"
 }
 
-// byzActive reports whether the provider forges answers on the given path right now.
-func (w *World) byzActive(f *FilterRT, login bool) bool {
-	k := f.IdP.Knobs
-	if k.Byz == "" {
-		return false
+// keyKnowledge says whether the filter can know the key that signed the answer's ID token:
+// "known" (in the statically configured set, or published and never rotated), "maybe" (published
+// after a rotation, fetcher may or may not have refreshed), "unknown-key".
+func (w *World) keyKnowledge(f *FilterRT, signer *SignKey) string {
+	if signer == nil {
+		return "known"
 	}
-	return k.ByzOn == "" || k.ByzOn == "both" || k.ByzOn == "login" && login || k.ByzOn == "refresh" && !login
-}
-
-// keysUnavailable reports whether the key that signed the answer's ID token is outside the key set
-// the provider publishes (so no honest verifier could accept it).
-func (w *World) keysUnavailable(f *FilterRT, tr *TokenReq) bool {
-	if tr.SignedBy == nil {
-		return false
+	// (discovery replaces a static key set by the fetcher: loadWellKnownConfig always sets jwks_uri)
+	if !f.Spec.JWKSFetch && !f.Spec.Discovery {
+		for _, k := range f.StaticKeys {
+			if k == signer {
+				return "known"
+			}
+		}
+		return "unknown-key"
 	}
 	for _, k := range f.IdP.Published {
-		if k == tr.SignedBy {
-			return false
+		if k == signer {
+			if f.IdP.Rotations > 0 {
+				return "maybe"
+			}
+			return "known"
 		}
 	}
-	return true
+	if f.IdP.Rotations > 0 {
+		return "maybe" // an older cached key set may still contain it
+	}
+	return "unknown-key"
 }
